@@ -14,6 +14,7 @@ spec fn cmp_range(x: u32, lo: u32, hi: u32) -> Ordering {
 spec fn in_group(t: Transition, lo: u32, hi: u32) -> bool { lo <= t.to <= hi }
 
 /// out is the slice ts[lo..=hi] and that index range is exactly where the group's targets sit
+#[verifier::opaque]
 spec fn is_exact_range(ts: Seq<Transition>, out: Seq<Transition>, lo: int, hi: int, gmin: u32, gmax: u32) -> bool {
     0 <= lo <= hi < ts.len() && out == ts.subrange(lo, hi + 1)
     && (forall|i: int| 0 <= i < ts.len() ==> (lo <= i <= hi <==> in_group(#[trigger] ts[i], gmin, gmax)))
